@@ -106,4 +106,94 @@ end AranyaV.Gen.Afc
 """
 
 
-ITEMS = [("ConstsAfc", gen)]
+# --------------------------------------------------------------------------------------------
+# Panic-site inventory (DESIGN.md 3.3) for the functions the C39 model transliterates.
+# A panic-capable construct = unwrap/expect/panic!/unreachable!/todo!/unimplemented!/assert*!,
+# an index expression `x[..]`, or an unchecked binary `+ - *` on values (rustfmt spacing).
+# Each function must contain exactly the sites listed here, each of which has an explicit
+# outcome in the model (`hostPanic` via `csub`/the `usizeMax` test, shown unreachable by
+# `seal_no_panic`).  `bug!`/`assume(..)?` return `Err(Bug)`, they do not panic.
+CLIENT = "crates/aranya-fast-channels/src/client.rs"
+INVENTORY = {
+    (CLIENT, "seal"): [],
+    (CLIENT, "seal_in_place"): ["+ Self::OVERHEAD", "- Self::TAG_SIZE"],
+    (CLIENT, "do_seal"): [],
+    (CLIENT, "open"): [],
+    (CLIENT, "open_in_place"): [],
+    (CLIENT, "do_open"): [],
+    (HDR, "DataHeader::try_parse"): [],
+}
+SITE = re.compile(
+    r"\.unwrap\(|\.expect\(|\bpanic!|\bunreachable!|\btodo!|\bunimplemented!|\bassert(?:_eq|_ne)?!"
+    r"|\bdebug_assert(?:_eq|_ne)?!"
+    r"|[\w\)\]]\[[^\]]*\]"          # index expression
+    r"|(?<=[\w\)\]]) [-+*] (?=[\w\(])[\w:]+(?:\(\))?"   # binary arithmetic
+)
+
+
+def fn_body(src, name, rel, within=None):
+    """text of `fn name(..) {..}` (optionally inside `impl within {..}`)"""
+    start = 0
+    if within:
+        m = re.search(r"\bimpl\s+" + re.escape(within) + r"\s*\{", src)
+        if not m:
+            raise Fail(f"{rel}: impl {within} not found")
+        start = m.end()
+    m = re.compile(r"\bfn\s+" + re.escape(name) + r"\s*[<(]").search(src, start)
+    if not m:
+        raise Fail(f"{rel}: fn {name} not found")
+    i = src.find("{", m.end())
+    # skip a `where` clause / return type: the body is the first `{` at paren depth 0
+    depth_par, j = 0, m.end() - 1
+    while j < len(src):
+        ch = src[j]
+        if ch in "(<" and not (ch == "<" and src[j - 1] == " "):
+            depth_par += 1 if ch == "(" else 0
+        elif ch == ")":
+            depth_par -= 1
+        elif ch == "{" and depth_par == 0:
+            i = j
+            break
+        j += 1
+    depth, k = 0, i
+    while k < len(src):
+        if src[k] == "{":
+            depth += 1
+        elif src[k] == "}":
+            depth -= 1
+            if depth == 0:
+                return src[i:k + 1]
+        k += 1
+    raise Fail(f"{rel}: unbalanced braces in fn {name}")
+
+
+def gen_sites():
+    rows = []
+    cache = {}
+    for (rel, fn), want in INVENTORY.items():
+        src = cache.setdefault(rel, strip_comments(read(rel)))
+        if "::" in fn:
+            within, name = fn.split("::")
+            body = fn_body(src, name, rel, within=within)
+        else:
+            body = fn_body(src, fn, rel)
+        # attributes and string literals are not code
+        body = re.sub(r"#\[[^\]]*\]", "", body)
+        body = re.sub(r'"(?:[^"\\]|\\.)*"', '""', body)
+        got = [re.sub(r"\s+", " ", m.group(0)).strip() for m in SITE.finditer(body)]
+        if got != want:
+            raise Fail(f"{rel}: panic-site inventory of fn {fn} changed: found {got}, inventory has {want} "
+                       f"(update the C39 model and tools/items/consts_afc.py)")
+        rows.append((rel, fn, want))
+    lines = ["namespace AranyaV.Gen.Afc", "",
+             "/-- panic-capable constructs found in the functions the C39 model transliterates",
+             "(file, function, sites); checked against the committed inventory on every run -/",
+             "def panicSites : List (String × String × List String) := ["]
+    for i, (rel, fn, want) in enumerate(rows):
+        ws = ", ".join('"' + w + '"' for w in want)
+        lines.append(f'  ("{rel}", "{fn}", [{ws}])' + ("," if i + 1 < len(rows) else ""))
+    lines += ["]", "", "end AranyaV.Gen.Afc", ""]
+    return "\n".join(lines)
+
+
+ITEMS = [("ConstsAfc", gen), ("PanicSitesAfc", gen_sites)]
